@@ -539,6 +539,20 @@ Theorem C18_first_put_reopen_bytes :
 Proof. exact first_put_reopen. Qed.
 Print Assumptions C18_first_put_reopen_bytes.
 
+(* ... lifted to histories: after ANY number of accepted Puts for one address on a missing
+   config (login, token refresh, re-login), the bytes on disk reopen to the LAST credential *)
+Theorem C18_repeated_put_reopen_bytes :
+  forall a (cs : list cred) c st,
+    one_addr_shape a st ->
+    Forall (fun c => put_accepts a c = true /\ Forall (fun x => x < 256) (c_user c ++ colon :: c_pass c)) (cs ++ [c]) ->
+    let stf := run b64_encode b64_decode st (map (Put a) (cs ++ [c])) in
+    exists d, st_file stf = Some d /\
+    exists st2 tops ents,
+      open_bytes (Some (render_file [] [] d)) = Some (st2, tops, ents) /\
+      get_candidates b64_decode (cache_of st2) a = [RCred c].
+Proof. exact repeated_put_reopen. Qed.
+Print Assumptions C18_repeated_put_reopen_bytes.
+
 (* the named JSON premise [reads_back] of C18_atomic_op, PROVED for that operation with
    the real writer (render_file) and the real reader (read_config) ... *)
 Theorem C18_first_put_reads_back :
